@@ -35,7 +35,7 @@ ASSUMPTIONS = ['crash model: prefix of issued raw ops + byte-prefix of one write
 REQUIRED_COUNTERS = ('crash_states_reopened', 'finish_markers_checked_for_fsync', 'followup_commits')
 EXHAUSTIVE = {'quick': False, 'thorough': False}
 
-OPS = ['store'] * 4 + ['multi'] * 2 + ['undo'] * 2 + ['undo2', 'delete', 'restore', 'reopen', 'empty', 'abort', 'abort']
+OPS = ['store'] * 4 + ['multi'] * 2 + ['undo'] * 2 + ['undo2', 'delete', 'restore', 'reopen', 'empty', 'abort', 'abort', 'resolved', 'resolved']
 
 
 def shards(tier, seed):
@@ -54,10 +54,12 @@ def record_history(s, d, nops, big):
     path = os.path.join(d, 'Data.fs')
     fs = FSM.FileStorage(path)
     pre = rnd.randrange(0, 3)
-    dr = Driver(fs, rnd, kind='file', log=LOG, big=big)
+    from zv.driver import model_resolver
+    dr = Driver(fs, rnd, kind='file', log=LOG, big=big, resolver=model_resolver)
+    dr.mix_classes = rnd.random() < 0.5
     factory = lambda: FSM.FileStorage(path)
     for _ in range(pre):                       # unrecorded prefix: history started from an existing file
-        dr.step(['store', 'multi', 'undo'], factory)
+        dr.step(['store', 'store', 'multi', 'undo'], factory)
     if pre and rnd.random() < 0.5:
         dr.op_reopen(factory)
     files0 = recfs.snapshot_dir(d)
